@@ -542,3 +542,92 @@ Proof.
       rewrite W2f by (apply (Dis (e, cBuf) (t, cHead) l); [intro H; apply (Hs cHead cBuf); symmetry; exact H|exact Hl]).
       apply W1f. apply (Dis (e, cBuf) (t, cEnc) l); [intro H; apply (Hs cEnc cBuf); symmetry; exact H|exact Hl].
 Qed.
+
+(* ---------------------------------------------------------------------------------------------- *)
+(* Deepening: tournament selection produces a population made of new cells only; behaviour that does not read
+   the re-synchronised blocks is the same for parent and copy under every registry *)
+
+Definition tail_fresh (n : nat) (N0 : loc) (w : world) : Prop :=
+  forall i a, (n <= i)%nat -> nth_error (w_pop w) i = Some a -> forall l, In l (agent_locs a) -> N0 <= l.
+
+Lemma clone_into_tail_fresh n N0 i idx w :
+  tail_fresh n N0 w -> N0 <= s_next (w_store w) -> (n <= length (w_pop w))%nat ->
+  tail_fresh n N0 (clone_into clone_agent i idx w) /\
+  N0 <= s_next (w_store (clone_into clone_agent i idx w)) /\
+  (n <= length (w_pop (clone_into clone_agent i idx w)))%nat.
+Proof.
+  intros T HN HL. pose proof (clone_into_next i idx w) as Hnext.
+  split; [|split; [lia|]].
+  - unfold clone_into in *. destruct (nth_error (w_pop w) i) as [a|]; auto.
+    destruct (clone_spec idx (w_store w) a) as (_ & C2 & _).
+    destruct (clone_agent idx (w_store w) a) as [s' c]. cbn [fst snd w_pop w_store] in *.
+    intros j b Hj Hb l Hl. cbn [w_pop] in Hb. destruct (Nat.lt_ge_cases j (length (w_pop w))) as [Hlt|Hge].
+    + rewrite nth_error_app1 in Hb by auto. eapply T; eauto.
+    + rewrite nth_error_app2 in Hb by auto. destruct (j - length (w_pop w))%nat as [|k]; cbn in Hb.
+      * injection Hb as <-. specialize (C2 l Hl). lia.
+      * destruct k; discriminate.
+  - unfold clone_into. destruct (nth_error (w_pop w) i) as [a|]; auto.
+    destruct (clone_agent idx (w_store w) a) as [s' c]. cbn [w_pop]. rewrite app_length. lia.
+Qed.
+
+Lemma clone_winners_tail_fresh n N0 : forall ws id old w,
+  tail_fresh n N0 w -> N0 <= s_next (w_store w) -> (n <= length (w_pop w))%nat ->
+  tail_fresh n N0 (clone_winners ws id old w).
+Proof.
+  induction ws as [|i r IH]; intros id old w T HN HL; cbn [clone_winners]; auto.
+  destruct (clone_into_tail_fresh n N0 i (Some (N.succ id)) w T HN HL) as (T' & HN' & HL').
+  apply IH; auto.
+Qed.
+
+Lemma in_skipn_nth {A} (x : A) : forall k l, In x (skipn k l) -> exists i, (k <= i)%nat /\ nth_error l i = Some x.
+Proof.
+  induction k as [|k IH]; intros l H.
+  - apply In_nth_error in H as (i & Hi). exists i. split; [lia|auto].
+  - destruct l as [|h t]; [contradiction|]. cbn [skipn] in H. destruct (IH t H) as (i & Hi & E).
+    exists (S i). split; [lia|auto].
+Qed.
+
+Lemma in_firstn_in {A} (x : A) : forall k l, In x (firstn k l) -> In x l.
+Proof. induction k as [|k IH]; intros [|h t] H; cbn in *; try contradiction. destruct H; auto. Qed.
+
+(* every member of the population returned by a tournament (new population and elite) owns only cells that did
+   not exist before the tournament: (clone, clone) and (parent, clone) pairs are disjoint from the old generation *)
+Theorem select_fresh_lemma e ws el w a l :
+  In a (w_pop (select e ws el w)) -> In l (agent_locs a) -> s_next (w_store w) <= l.
+Proof.
+  unfold select. cbn [w_pop]. set (n := length (w_pop w)). set (N0 := s_next (w_store w)).
+  intros Ha Hl.
+  assert (T0 : tail_fresh n N0 w).
+  { intros i b Hi Hb. exfalso. assert (nth_error (w_pop w) i <> None) by congruence.
+    apply nth_error_Some in H. unfold n in Hi. lia. }
+  destruct (clone_into_tail_fresh n N0 e None w T0 (N.le_refl _) (Nat.le_refl _)) as (T1 & N1 & L1).
+  set (w1 := clone_into clone_agent e None w) in *.
+  assert (T2 : tail_fresh n N0 (if el then clone_into clone_agent n None w1 else w1) /\
+               N0 <= s_next (w_store (if el then clone_into clone_agent n None w1 else w1)) /\
+               (n <= length (w_pop (if el then clone_into clone_agent n None w1 else w1)))%nat).
+  { destruct el; auto. apply clone_into_tail_fresh; auto. }
+  destruct T2 as (T2 & N2 & L2).
+  pose proof (clone_winners_tail_fresh n N0 ws (max_index (w_pop w)) n _ T2 N2 L2) as T3.
+  set (w3 := clone_winners ws (max_index (w_pop w)) n (if el then clone_into clone_agent n None w1 else w1)) in *.
+  apply in_app_or in Ha as [Ha|Ha].
+  - destruct (in_skipn_nth a _ _ Ha) as (i & Hi & E). apply (T3 i a); auto; lia.
+  - apply in_firstn_in in Ha. destruct (in_skipn_nth a _ _ Ha) as (i & Hi & E). apply (T3 i a); auto.
+Qed.
+
+(* behaviour that reads only what lies outside the re-synchronised blocks (e.g. the greedy action of DQN reads the
+   online network, never the target) is the same for parent and copy under EVERY registry *)
+Definition view_outside (s : store) (a : agent) : (N * list (name * N) * list (name * Q) * registry * list (name * Q)) * list (key * list cval) :=
+  ((a_mut a, a_arch a, a_hps a, a_reg a, map (fun o => (o_name o, o_lr o)) (a_opts a)),
+   contents s (keep_out (kExt :: resync_keys (a_reg a)) (a_blocks a))).
+
+Section SameBehaviourOutside.
+  Variable B : Type.
+  Variable behaviour : (N * list (name * N) * list (name * Q) * registry * list (name * Q)) * list (key * list cval) -> B.
+  Lemma same_behaviour_outside_lemma idx s a :
+    bounded s (agent_locs a) ->
+    behaviour (view_outside (fst (clone_agent idx s a)) (snd (clone_agent idx s a))) = behaviour (view_outside s a).
+  Proof.
+    intros Bd. destruct (clone_faithful_lemma idx s a Bd) as (_ & C & _ & (M1 & M2 & M3 & M4 & M5)).
+    unfold view_outside. rewrite M1, M2, M3, M4, M5, C. reflexivity.
+  Qed.
+End SameBehaviourOutside.
